@@ -48,7 +48,7 @@ let obs_of os =
       let out = (match next c with "0" -> OEclipse | "1" -> OJUnit | "2" -> OTeamCity | _ -> raise (Bad "output kind")) in
       let pkg = bytes_tok (next c) in
       let gf = filters c in let nf = filters c in
-      let sel = many c 12 (fun c -> bool_tok (next c)) in
+      let sel = many c 14 (fun c -> bool_tok (next c)) in
       if not (at_end c) then raise (Bad "trailing tokens") else
       OAccepted ({ c_verbose = v; c_veryverbose = vv; c_color = co; c_sep = p; c_listg = lg; c_listn = ln; c_listl = ll; c_runign = ri;
                    c_rev = rv; c_crash = f; c_rethrow = re; c_shuf = sh; c_seed = seed; c_repeat = rep; c_out = out; c_pkg = pkg;
